@@ -9,6 +9,7 @@ import (
 	"fmt"
 	"math/rand"
 	"os"
+	"strings"
 	"sync"
 
 	"kzverif/gen"
@@ -32,6 +33,15 @@ func runPipe(p pipe, perturb int) (string, string, string) {
 	rec := hk.NewRec(p.seed)
 	rec.Perturb = perturb
 	rec.Digest = map[int]bool{}
+	wev, rev := &kz.Collector{}, &kz.Collector{}
+	evDig := func(c *kz.Collector) string {
+		if p.w.Verbosity == 0 {
+			return ""
+		}
+		// the positions reported to the listeners belong to the results of the pipeline
+		return "+events:" + tr.Dig([]byte(strings.Join(c.Sorted(), "\n")))
+	}
+	p.w.Events = wev
 	stream, err := kz.Compress(data, p.w, p.parts, rec.Func())
 	if err != nil {
 		return "werr:" + errText(err), "", tr.Dig(data)
@@ -39,11 +49,11 @@ func runPipe(p pipe, perturb int) (string, string, string) {
 	rec2 := hk.NewRec(p.seed + 1)
 	rec2.Perturb = perturb
 	rec2.Digest = map[int]bool{}
-	out, err := kz.Decompress(stream, kz.RCfg{Jobs: p.rjobs, W: &p.w, OrigSize: int64(len(data))}, nil, p.lens, rec2.Func(), len(data)+1<<20)
+	out, err := kz.Decompress(stream, kz.RCfg{Jobs: p.rjobs, W: &p.w, OrigSize: int64(len(data)), Verbosity: p.w.Verbosity, Events: rev}, nil, p.lens, rec2.Func(), len(data)+1<<20)
 	if err != nil {
-		return tr.Dig(stream), "rerr:" + errText(err), tr.Dig(data)
+		return tr.Dig(stream) + evDig(wev), "rerr:" + errText(err), tr.Dig(data)
 	}
-	return tr.Dig(stream), tr.Dig(out), tr.Dig(data)
+	return tr.Dig(stream) + evDig(wev) + evDig(rev), tr.Dig(out), tr.Dig(data)
 }
 
 func cmdMulti(args []string) int {
@@ -123,6 +133,12 @@ func cmdMulti(args []string) int {
 				size := 4<<20 + 70001 + 4096*bi
 				pipes = append(pipes, pipe{w: kz.Cfg{Transform: []string{"BWT", "TEXT+BWT"}[bi%2], Entropy: "NONE", Block: 8 << 20, Jobs: 2, Ck: 32, Hint: int64(size)},
 					rjobs: []uint{4, 8, 3}[bi%3], shape: "text", size: size, seed: *seed*7717 + int64(9000+bi), parts: nil, lens: nil})
+			}
+		}
+		// every third pipeline with a listener and the verbosity of the command line tool's -v 5 (BLOCK_INFO events)
+		for i := range pipes {
+			if i%3 == 1 {
+				pipes[i].w.Verbosity = 5
 			}
 		}
 		// alone, one after the other
